@@ -240,6 +240,37 @@ def run(ctx):
             n9 = _c18.check_scope_mirroring(ctx, prog, tag, "C05.B9.tracker-scope-ends-where-the-engine's-frame-ends", ce_, me_)
             n9 += _c18.check_statement_lists_walked(ctx, prog, tag, "C05.B9.statement-list-is-walked-in-its-own-scope", ce_, me_)
             ctx.floor("C05.B9 tracker scope obligations" + tag, n9, 5)
+        # ---- B10: a nested evaluation that keeps the caller's context (it runs other instructions through
+        # `with_execution_state` without installing a new context) gets a frame of its own, so that what the nested code
+        # assigns does not land in the caller's scope.  Sibling rule over all such functions: block calls and super() push
+        # a frame; an include does not (see known findings: `{% import %}` is compiled as include + ExportLocals and relies
+        # on the included template writing into the current frame).
+        WES = "minijinja::vm::state::State::with_execution_state"
+        PUSHF = "minijinja::vm::context::Context::push_frame"
+        n10 = 0
+        for f in sorted(prog.fns.values(), key=lambda x: x.path):
+            if f.crate != "minijinja" or f.kind == "closure":
+                continue
+            wes = f.calls_to(WES)
+            if not wes:
+                continue
+            swaps = [c for c in f.calls() if c.name == "core::mem::replace" and any(
+                o.kind == "arg" and o.proj and o.proj[-1] == "ctx" for o in flow.origins(f, c.args[0]))]
+            if swaps:
+                continue            # runs in a context of its own (macros)
+            for w in wes:
+                n10 += 1
+                pushes = [c for c in f.calls_to(PUSHF) if cfg.dominates(f, c.bb, w.bb)]
+                # or inside the closure that performs the nested evaluation, before it evaluates
+                for cl in prog.closures_of(f.path):
+                    evs_ = [c for c in cl.calls() if c.name.endswith("Executor::eval_state") or c.name.endswith("Executor::do_eval")]
+                    pushes += [c for c in cl.calls_to(PUSHF) if evs_ and all(cfg.dominates(cl, c.bb, e.bb) for e in evs_)]
+                ctx.ob("C05.B10.nested-evaluation-gets-a-frame-of-its-own", tag + f.path.split("::")[-1], bool(pushes),
+                       "%s evaluates other instructions on the caller's context without pushing a frame first: what the "
+                       "nested code assigns (`{%% set %%}` at the top level of an included template) stays visible to the "
+                       "caller after the construct" % f.path.split("::")[-1], f.where(w.bb))
+        if prog.has_fn(WES):
+            ctx.floor("C05.B10 nested evaluations on the caller's context" + tag, n10, 2)
         # ---- B8: the program counter only ever holds positions of the running instructions (c05_jumps)
         from .c05_jumps import check_jumps
         check_jumps(ctx, prog, tag)
